@@ -13,6 +13,7 @@ import SpecVerif.Model.Mtm
 import SpecVerif.Model.ClassGlue
 import SpecVerif.Model.Object
 import SpecVerif.Model.Window
+import SpecVerif.Model.Criteria
 /-
   Line-protocol driver for the executable model (no Mathlib anywhere below this file, so it links as a
   `lean_exe`).
@@ -83,6 +84,13 @@ class LogRe (K : Type) where
 instance : LogRe CFloat := ⟨fun z => some ⟨Float.log z.re, 0.0⟩⟩
 instance : LogRe CRat := ⟨fun _ => none⟩
 
+/-- real part as a double (used to evaluate the criteria of Model/Criteria.lean) -/
+class ReF (K : Type) where
+  reF : K → Float
+
+instance : ReF CFloat := ⟨fun z => z.re⟩
+instance : ReF CRat := ⟨fun _ => 0.0⟩
+
 /-! ### request parsing -/
 
 def splitSections (toks : List String) : List (List String) :=
@@ -106,7 +114,7 @@ abbrev Reply (K : Type) := Except String (List (List K))
 
 section Handlers
 variable {K : Type} [Add K] [Sub K] [Mul K] [Div K] [Neg K] [OfNat K 0] [OfNat K 1] [NatCast K]
-  [Conj K] [ReOrd K] [Twid K] [LogRe K] [IsZero K]
+  [Conj K] [ReOrd K] [Twid K] [LogRe K] [ReF K] [IsZero K]
 
 def natAt (hd : List String) (i : Nat) : Nat := ((hd.getD i "0").toNat?).getD 0
 def strAt (hd : List String) (i : Nat) : String := hd.getD i ""
@@ -268,14 +276,17 @@ def handle (cmd : String) (hd : List String) (vs : List (List K)) : Reply K :=
       let name := strAt hd 1
       let useCrit := name ≠ "none"
       let rho0 := (burgInit x).rho
-      -- stop k ρ_k : criterion at order k exceeds the one at order k-1
-      let supported := !useCrit || (critVal name x.length rho0 0).isSome
+      -- stop k ρ_k : criterion at order k exceeds the one at order k-1 (Model/Criteria.lean, evaluated on the real parts)
+      let crit : Option Crit := match name with
+        | "AIC" => some .AIC | "AICc" => some .AICc | "KIC" => some .KIC | "AKICc" => some .AKICc
+        | "FPE" => some .FPE | "MDL" => some .MDL | _ => none
+      let supported := !useCrit || (crit.isSome && (LogRe.logRe rho0).isSome)
       if !supported then .error "unsupported" else
       let stop := fun (k : Nat) (rk : K) =>
         let prev := if k = 1 then rho0 else (burgRun x (k - 1)).rho
-        match critVal name x.length rk k, critVal name x.length prev (k - 1) with
-        | some c1, some c0 => reGt c1 c0
-        | _, _ => false
+        match crit with
+        | some c => critStops c x.length (ReF.reF prev) (ReF.reF rk) k
+        | none => false
       match arburg x (natAt hd 0) useCrit stop with
       | .ok st => .ok [st.a, [st.rho], st.ref]
       | .error e => .error e
@@ -495,7 +506,7 @@ def runObjHist (hd : List String) : String :=
     "ok ; " ++ " ; ".intercalate outs
 
 def runAt (K : Type) [Add K] [Sub K] [Mul K] [Div K] [Neg K] [OfNat K 0] [OfNat K 1] [NatCast K]
-    [Conj K] [ReOrd K] [Twid K] [LogRe K] [IsZero K] [Codec K] (cmd : String) (hd : List String)
+    [Conj K] [ReOrd K] [Twid K] [LogRe K] [ReF K] [IsZero K] [Codec K] (cmd : String) (hd : List String)
     (secs : List (List String)) : String :=
   match secs.mapM (parseVec (K := K)) with
   | none => "err parse"
